@@ -56,11 +56,14 @@ register("C05", "exploration",
           ConcPart("C05", "obj", name="conc-obj", weight=1.0, mp="mixed")])
 
 register("C06", "exploration",
-         SEQ_RULE + "; focus = a store_object with validation data or a delete_if_invalid_object",
+         SEQ_RULE + "; focus = a store_object with validation data or a delete_if_invalid_object. Part div-under-fault: "
+         "delete_if_invalid_object with correct / incorrect expectations while one I/O error is injected (FAULT engine): "
+         "with correct expectations the call may fail with the error but must not answer with a mismatch class nor remove the object",
          COMMON_ASSUME + ["expected size 0 is an argument error, not a verdict",
                           "delete_if_invalid_object on ObjectMetadata whose object is gone: weak oracle only"],
          30, 420,
-         [SeqPart("C06", focus=["validated-store", "div"], hooks=_raw_hooks)])
+         [SeqPart("C06", focus=["validated-store", "div"], hooks=_raw_hooks),
+          SingleRandomPart("C06", "FAULT", "div-under-fault", weight=0.25, kinds="ext", only="div")])
 
 register("C11", "exploration",
          SEQ_RULE + "; focus = a metadata call",
